@@ -572,7 +572,7 @@ def header_contract(label, type_bytes):
                  ('position', f"True if ({none_when}) else result['position'] == pos0"),
                  ('size', f"True if ({none_when}) else result['size'] == (total - pos0 if size32 == 0 else (size64 if size32 == 1 else size32))"),
                  ('header_size', f"True if ({none_when}) else result['header_size'] == {hdr}")],
-        canaries=['is_unset(result)'],
+        canaries=['is_unset(result)' if ascii_ok else 'not is_unset(result)'],
         witness_terms=lambda w: (lambda ev: {k: ev(z3.Int(k)) for k in ('pos0', 'total', 'size32', 'size64')}),
     )
 
